@@ -642,6 +642,9 @@ pub fn run_property(mut spec: PropertySpec, tier: Tier, seed: u64) -> i32 {
             };
             let uname = v["unit"].as_str().unwrap_or("");
             let Some(unit) = spec.units.iter().find(|u| u.name() == uname) else {
+                if std::env::var("VERIF_UNITS").is_ok() {
+                    continue; // development filter: the unit was deselected
+                }
                 eprintln!(
                     "pcverif: regress file {} names unknown unit {uname}",
                     f.display()
